@@ -402,13 +402,42 @@ theorem standDown_keeps (g : Graph) (ids : List Key) (k : Key) (F : List Nat) (a
               simp only [reset_pt, reset_name, hk.1, hk.2] at hq
               exact hq
 
-theorem removeDownstream_keeps (g : Graph) (s : State) (ids : List Key) (k : Key) (F : List Nat) :
-    Keeps ((allChildren g k).flatMap (childKeys g)) s (removeDownstream g s ids k F).1 := by
+theorem orderBy_mem (hint l : List Key) (k : Key) (h : k ∈ orderBy hint l) : k ∈ l := by
+  unfold orderBy at h
+  rcases List.mem_append.mp h with h | h
+  · -- the fold only ever appends members of `l`
+    suffices hs : ∀ (hs : List Key) (acc : List Key), (∀ q ∈ acc, q ∈ l) →
+        ∀ q ∈ hs.foldl (fun acc k => if l.contains k && !acc.contains k then acc ++ [k] else acc) acc, q ∈ l by
+      exact hs hint [] (fun _ hq => absurd hq (by simp)) k h
+    intro hs
+    induction hs with
+    | nil => intro acc ha; exact ha
+    | cons a hs ih =>
+      intro acc ha
+      simp only [List.foldl_cons]
+      apply ih
+      split
+      · rename_i hc
+        intro q hq
+        rcases List.mem_append.mp hq with hq | hq
+        · exact ha q hq
+        · simp only [List.mem_singleton] at hq
+          simp only [Bool.and_eq_true, List.contains_iff_mem] at hc
+          rw [hq]; exact hc.1
+      · exact ha
+  · exact (List.mem_filter.mp h).1
+
+theorem removeDownstream_keeps (g : Graph) (s : State) (ids : List Key) (k : Key) (F : List Nat) (ch : List Key) :
+    Keeps ((allChildren g k).flatMap (childKeys g)) s (removeDownstream g s ids k F ch).1 := by
   unfold removeDownstream
   simp only
   have h := foldl_keeps_flat (fun (a : State × Bool) => a.1) (standDown g ids k F) (childKeys g)
-    (standDown_keeps g ids k F) (allChildren g k) (s, false)
-  exact h.trans (Keeps.of_pool (eraseHistory_pool g _ k F))
+    (standDown_keeps g ids k F) (orderBy ch (allChildren g k)) (s, false)
+  refine (h.mono ?_).trans (Keeps.of_pool (eraseHistory_pool g _ k F))
+  intro q hq
+  rw [List.mem_flatMap] at hq ⊢
+  obtain ⟨c, hc, hqc⟩ := hq
+  exact ⟨c, orderBy_mem ch _ c hc, hqc⟩
 
 theorem removePooled_keeps (g : Graph) (s : State) (x : Proxy) (fr : List Nat) :
     Keeps ((x.pt, x.name) :: succKey g (x.pt, x.name)) s (removePooled g s x fr) := by
@@ -426,8 +455,9 @@ and their parentless successors -/
 def closure1 (g : Graph) (k : Key) : List Key :=
   (k :: succKey g k) ++ (allChildren g k).flatMap (childKeys g)
 
-theorem removeOne_keeps (g : Graph) (ids : List Key) (F : List Nat) (acc : State × List Key × Bool) (k : Key) :
-    Keeps (closure1 g k) acc.1 (removeOne g ids F acc k).1 := by
+theorem removeOne_keeps (g : Graph) (ids : List Key) (F : List Nat) (chs : List (Key × List Key))
+    (acc : State × List Key × Bool) (k : Key) :
+    Keeps (closure1 g k) acc.1 (removeOne g ids F chs acc k).1 := by
   unfold removeOne closure1
   obtain ⟨st, toKill, any⟩ := acc
   simp only
@@ -436,19 +466,19 @@ theorem removeOne_keeps (g : Graph) (ids : List Key) (F : List Nat) (acc : State
     have hk := get?_some_key st k.1 k.2 x hx
     split
     · split
-      · exact (removeDownstream_keeps g st ids k F).mono (fun q hq => List.mem_append_right _ hq)
+      · exact (removeDownstream_keeps g st ids k F _).mono (fun q hq => List.mem_append_right _ hq)
       · exact Keeps.refl _ st
     · have h1 := removePooled_keeps g st x (x.matchFlows F)
       rw [hk.1, hk.2] at h1
       exact (h1.mono (fun q hq => List.mem_append_left _ hq)).trans
-        ((removeDownstream_keeps g _ ids k F).mono (fun q hq => List.mem_append_right _ hq))
-  · exact (removeDownstream_keeps g st ids k F).mono (fun q hq => List.mem_append_right _ hq)
+        ((removeDownstream_keeps g _ ids k F _).mono (fun q hq => List.mem_append_right _ hq))
+  · exact (removeDownstream_keeps g st ids k F _).mono (fun q hq => List.mem_append_right _ hq)
 
 /-- **the frame of the removal loop**: a pooled proxy outside the closure of the matched ids is untouched -/
-theorem removeCore_keeps (g : Graph) (s : State) (ids : List Key) (F : List Nat) :
-    Keeps (ids.flatMap (closure1 g)) s (removeCore g s ids F).1 := by
+theorem removeCore_keeps (g : Graph) (s : State) (ids : List Key) (F : List Nat) (chs : List (Key × List Key)) :
+    Keeps (ids.flatMap (closure1 g)) s (removeCore g s ids F chs).1 := by
   unfold removeCore
-  exact foldl_keeps_flat (fun (a : State × List Key × Bool) => a.1) (removeOne g ids F) (closure1 g)
-    (removeOne_keeps g ids F) ids (s, [], false)
+  exact foldl_keeps_flat (fun (a : State × List Key × Bool) => a.1) (removeOne g ids F chs) (closure1 g)
+    (removeOne_keeps g ids F chs) ids (s, [], false)
 
 end CylcModel.Sched3Rm
